@@ -175,7 +175,9 @@ CHECKS = {
              'traffic every server stream is cut at every offset (quick: every second offset plus frame boundaries +-2) and the real '
              'client must finish the execution (not exhaust the step budget, not spin on empty reads, not block, not idle for ever), '
              'report an error - or take exactly the documented fallback to the default version when the status query went '
-             'unanswered - and deliver only completely sent packets; each run is judged read by read by the contract in TLC.',
+             'unanswered - and deliver only completely sent packets; each run is judged read by read by the contract in TLC. Each conversation is '
+             'also ended by a TCP reset at and around every frame boundary (select() and poll() both virtualised, poll() with Linux event bits): '
+             'bounded steps and an error report, judged by scheduler outcome.',
         note='Fallback connections that are refused must end in a reported error. Two conversations carry a 20 KB frame (plain / encrypted) with sampled cut offsets. Trusted: TLC, the scheduler and virtual socket layer as the observer of liveness (step budget 60000, spin = 50 empty '
              'reads), the peer codec.',
         design='5/C15'),
